@@ -420,6 +420,17 @@ class Engine(Executor):
         n = sum(1 for ev in s.ghost.get("events", []) if isinstance(ev, PyTuple) and ev.items and self.concrete_str(ev.items[0]) == name)
         return [(s, Z(V.mk(n), "int"))]
 
+    def bi_yield_count(self, args, kwargs, s, node):
+        """yield_count(tag): how many values the (single) generator call recorded under that event tag yielded to the
+        loop that consumed it to the end (known after that loop's normal exit)."""
+        name = self.concrete_str(args[0])
+        evs = s.ghost.get("events", [])
+        idx = [i for i, ev in enumerate(evs) if isinstance(ev, PyTuple) and ev.items and self.concrete_str(ev.items[0]) == name]
+        counts = s.ghost.get("gen_counts", {})
+        if len(idx) != 1 or idx[0] not in counts:
+            return [(s, Z(V.VInt(V.fresh("yield_count", V.I)), "int"))]     # not determined on this path: an arbitrary number
+        return [(s, Z(V.VInt(counts[idx[0]]), "int"))]
+
     def bi_path_is(self, args, kwargs, s, node):
         """path_is(p, base, segment): p is the result of the (non-mutating) `base + segment`."""
         p, base, seg = args
@@ -1524,6 +1535,12 @@ class Engine(Executor):
                     nxt.append(s2)
             fins = nxt
         for f0 in fins:
+            if isinstance(it, tuple) and it[0] == "gen" and f0.ghost.get("events"):
+                # the generator consumed by this loop ran to its end: it yielded `count` values
+                f0.ghost = dict(f0.ghost)
+                gc = dict(f0.ghost.get("gen_counts", {}))
+                gc[len(f0.ghost["events"]) - 1] = count
+                f0.ghost["gen_counts"] = gc
             for n in new_names:
                 t = z3.Const("loop_%s!%sx" % (n, tag), Val)
                 hint = None
@@ -1686,6 +1703,8 @@ class Engine(Executor):
                 n_ret += 1
                 res = Z(V.VNone) if oc is None else oc[1]
                 env2 = dict(entry)
+                for nm_, val_ in s.env.items():
+                    env2.setdefault(nm_, val_)          # locals at the return point may be named in a post-condition
                 env2["result"] = res
                 env2["events"] = PyTuple(list(s.ghost.get("events", [])))
                 if a.kwarg is not None and isinstance(entry.get(a.kwarg.arg), tuple):
